@@ -311,8 +311,9 @@ def run(chk):
                         chk.add(f'clifford_multiply == sequential application [n={n}] entry {ei} case Sx[:, :2]={v:08b}', pre + extra, cl_, key='clifford_multiply != sequential', replay=rp)
                 else:
                     chk.add(f'clifford_multiply == sequential application, all (rx,Sx),(ry,Sy),P [n={n}] entry {ei}', pre, cl_, key='clifford_multiply != sequential', replay=rp)
-            chk.add(f'clifford_multiply result symplectic & binary [n={n}]', pre,
-                    ir.band(ir.band_all(symplectic_constraints(Sz, n)), ir.band_all(S.as_sb(x <= 1).n for x in H.elems(rz) + H.elems(Sz))), key='clifford_multiply result not symplectic', replay=rp)
+            for ci_, c_ in enumerate(symplectic_constraints(Sz, n)):
+                chk.add(f'clifford_multiply result symplectic [n={n}] constraint {ci_}', pre, c_, key='clifford_multiply result not symplectic', replay=rp)
+            chk.add(f'clifford_multiply result binary [n={n}]', pre, ir.band_all(S.as_sb(x <= 1).n for x in H.elems(rz) + H.elems(Sz)), key='clifford_multiply result not symplectic', replay=rp)
             chk.add(f'reach mult [n={n}] path {pi}', pre, ir.TRUE, kind='reach')
     # ---- 3. per-gate tableau through the public API == dense conjugation, all phased Paulis (symbolic P)
     tables = {}
@@ -344,9 +345,14 @@ def run(chk):
             chk.add(f'CliffordCircuit.{key}{idx}: tableau(P) == U^dag P U for all phased P [n={n}]', path.pc, eq_arr(path.value, table_lookup(tab, P)),
                     key=f'tableau of gate {key} != conjugation', replay=rp)
     # ---- 4. histories with symbolic gate names
-    real_fn = cl._basic_clifford_dagger_f2
-    extra = {'numqi.sim.clifford': {'_basic_clifford_dagger_f2': sym_dagger_f2(real_fn)}}
-    shapes = history_shapes(quick, rng)
+    real_fn = getattr(cl, '_basic_clifford_dagger_f2', None)
+    if real_fn is None:
+        chk.assume('the internal per-gate table hook _basic_clifford_dagger_f2 is absent in this tree: histories are checked with concrete gate names only')
+        shapes = []
+        extra = {}
+    else:
+        extra = {'numqi.sim.clifford': {'_basic_clifford_dagger_f2': sym_dagger_f2(real_fn)}}
+        shapes = history_shapes(quick, rng)
     chk.extra['history_shapes'] = len(shapes)
     for hi, (n, steps) in enumerate(shapes):
         keys = {}
@@ -399,6 +405,65 @@ def run(chk):
                 chk.add(f'history n={n} [{desc}] query@{si} reflects all gates appended so far', valid + path.pc, eq_arr(got, ref),
                         key='CliffordCircuit query does not reflect all appended gates', replay=rp)
             chk.add(f'reach history {hi}', valid + path.pc, ir.TRUE, kind='reach')
+    # ---- 4b. histories with CONCRETE gate names through the public API only (no internal hook): all histories of length <= 2 with a
+    #          query after every append and cache-priming variants, plus sampled longer ones; the queried Pauli is symbolic
+    conc = []
+    for n in (1, 2):
+        gl = [(k, (q,)) for k in ONE_Q for q in range(n)] + [(k, ab) for k in TWO_Q for ab in itertools.permutations(range(n), 2)]
+        first = [g for g in gl if max(g[1]) == n - 1]
+        seqs = [(g,) for g in first] + [(g, h) for g in first for h in gl]
+        longer = [(g, h, i) for g in first for h in gl for i in gl]
+        rng.shuffle(longer)
+        seqs += longer[:(40 if quick else 1500)]
+        if not quick:
+            more = [tuple([rng.choice(first)] + [rng.choice(gl) for _ in range(rng.randint(3, 5))]) for _ in range(300)]
+            seqs += more
+        for seq in seqs:
+            conc.append((n, seq, 'every'))
+            if len(seq) >= 2:
+                conc.append((n, seq, 'prime'))
+    chk.extra['concrete_histories'] = len(conc)
+    for ci, (n, seq, mode) in enumerate(conc):
+        Pq = {}
+
+        def f_c(n=n, seq=seq, mode=mode, ci=ci):
+            circ = numqi.sim.CliffordCircuit()
+            out = []
+            applied = []
+            for si, (key, idx) in enumerate(seq):
+                getattr(circ, key)(*idx)
+                applied.append((key, idx))
+                if mode == 'prime' and si == 0:
+                    circ.to_symplectic_form()
+                if mode == 'every' or si == len(seq) - 1:
+                    P = Pq.setdefault(si, bits(f'c{ci}p{si}', 2 * n + 2))
+                    got = circ.apply_pauli_F2(P)
+                    ref = P
+                    for k, ix in reversed(applied):
+                        ref = table_lookup(tables[(k, tuple(ix), n)], ref)
+                    out.append((si, got, ref))
+            return out
+        paths, st = H.run_paths(f_c, [])
+        chk.add_path_stats(st)
+        chk.configurations += 1
+        desc = ' '.join(f'{k}{tuple(i)}' for k, i in seq) + f' [{mode}]'
+        for pi, path in enumerate(paths):
+            def mk(m, n=n, seq=seq, mode=mode, Pq=Pq):
+                steps = []
+                for si, (key, idx) in enumerate(seq):
+                    steps.append(['gate', key, list(idx)])
+                    if mode == 'prime' and si == 0:
+                        steps.append(['symplectic', [0] * (2 * n + 2)])
+                    if si in Pq:
+                        steps.append(['apply', H.eval_array(Pq[si], H.model_env(m, [Pq[si]])).tolist()])
+                return {'what': 'history', 'n': n, 'steps': steps}
+            rp = ('c07', mk)
+            if path.status != 'return':
+                chk.add(f'history {desc} raises {type(path.value).__name__}', path.pc, ir.FALSE, key='CliffordCircuit history raises', replay=rp)
+                continue
+            for si, got, ref in path.value:
+                chk.add(f'history n={n} {desc}: query after gate {si} == U^dag P U of all gates appended so far', path.pc, eq_arr(got, ref),
+                        key='CliffordCircuit query does not reflect all appended gates', replay=rp)
     # ---- 5. to_universal_circuit == ordered gate product (concrete names, symbolic state via C03 machinery is not needed: ground)
     gates2 = [(k, (q,)) for k in ONE_Q for q in range(2)] + [(k, ab) for k in TWO_Q for ab in ((0, 1), (1, 0))]
     seqs = [(g,) for g in gates2] + (rng.sample(list(itertools.product(gates2, repeat=2)), 40) if quick else list(itertools.product(gates2, repeat=2)))
